@@ -230,7 +230,7 @@ impl Gen {
         if !self.rng.chance(self.p.bcast_pct, 100) {
             return d.to_vec();
         }
-        match self.rng.weighted(&[30, 14, 26, 14, 8, 8]) {
+        match self.rng.weighted(&[28, 12, 24, 12, 8, 8, 8]) {
             0 => vec![*d.last().unwrap()],            // last-dimension vector
             1 => vec![1],                             // scalar-like
             2 => {
@@ -255,6 +255,23 @@ impl Gen {
                 // lower rank >= 2 (suffix)
                 if d.len() >= 3 {
                     d[1..].to_vec()
+                } else {
+                    vec![*d.last().unwrap()]
+                }
+            }
+            5 => {
+                // lower rank AND unit dimensions (a conv-style bias [F,1,1] against [B,F,r,c])
+                if d.len() >= 3 {
+                    let k = 1 + self.rng.below(d.len() - 2);
+                    let mut e = d[k..].to_vec();
+                    let n = e.len();
+                    let keep = self.rng.below(n);
+                    for (i, x) in e.iter_mut().enumerate() {
+                        if i != keep && self.rng.chance(2, 3) {
+                            *x = 1;
+                        }
+                    }
+                    e
                 } else {
                     vec![*d.last().unwrap()]
                 }
